@@ -95,5 +95,10 @@ FIXED.append("fixed: property=C20 7c95d62 the label Patient.text.div.id is not a
 FIXED.append("fixed: property=C02 82ef365 Bundle.entry.request.method.value read 'post' for the code POST, Quantity.comparator.value 'less-than' for '<', fhirVersion 'v-1-4-0' for '1.4.0' (kebab-cased enum name instead of the FHIR code)")
 FIXED.append("fixed: property=C02 a7661ae OperationOutcome.issue.code.value (and the 10 other bound codes generated as <Parent>.CodeType) failed with 'complex type ... CodeType can't be cast to system type'")
 FIXED.append("fixed: property=C04 e099019 under TZ=America/St_Johns `@2020-03-08T00:15:00.500-03:30 + 1 day` gave offset -02:30 (time.Parse returns time.Local for an offset the process zone uses, calendar arithmetic then follows its DST rules); same for elements via fhirconv.parseLocation; found by the enumerated time-zone space")
+k('C13', 'convertsTo!=to.exists|String|fhir.valueless.*|convertsTo=false,to=value', "same recorded defect as for complex elements: toString() on an element that has no System value (Quantity without value or with unparsable value, Decimal without/with bad text, Age/Duration) returns Boolean false instead of empty (asserted by the repository's TestToString)", {'src': "%x.toString() with %x = Quantity{unit:'mg'}", 'got': '[false]', 'want': '{}'})
+k('C13', 'result-type|String|fhir.valueless.*|got=Boolean', 'same defect: the result of toString() on an element without a System value is a Boolean', {'src': "%x.toString() with %x = Quantity{unit:'mg'}"})
+k('C13', 'to-errors|Integer|fhir.valueless.*|table=2', "same recorded defect as for strings: toInteger() on a string-like element whose text is not an integer (here the empty text of a value-less string, and the code of an unset enum) returns the strconv error instead of empty (asserted by the repository's TestToInteger)", {'src': "%x.toInteger() with %x = string element holding only an extension"})
+FIXED.append("fixed: property=C16 2eaab9e 'abcdef'.substring({}) / .substring(1, {}) / .startsWith({}) / .endsWith({}) / .contains({}) failed at evaluation with 'incorrect function arity: received 0 arguments, expected 1' although the call has the accepted argument count; found by the empty-position variants added for the seeded change C16-m3")
+FIXED.append("fixed: property=C18 6f54052 patch.Replace(AuditEvent.action, 'c') / Replace(Questionnaire.item.type, 'date-time') / Replace(Quantity.comparator, 'less-than') succeeded and set the codes C / dateTime / <, which the FHIR JSON tree cannot hold under those spellings (any string normalising to an enum name was accepted), while the real codes were rejected; found by the strict code model added for the seeded change C18-m4")
 if __name__ == '__main__':
     write()
